@@ -16,3 +16,10 @@ Definition spe_step_qc (dim N : nat) (lam tol : Qc) (ps : list (nat * nat)) (Rt 
 Definition qc_of (num : Z) (den : positive) : Qc := Q2Qc (num # den).
 Definition qc_num (q : Qc) : Z := Qnum (this q).
 Definition qc_den (q : Qc) : positive := Qden (this q).
+
+(* the same on a range: `pool` = feature vectors by sample id (row id = sample id), `range` = the ids handed
+   to embed() *)
+From TK Require Import Spe_Des_Model.
+Definition rp_embed_des_qc (s : Qc) (D d : nat) (g : list Qc) (pool : list (list Qc)) (range : list nat)
+  : res (list (list Qc)) :=
+  @rp_embed_des Qc QcOps s D d g (fun id => mof pool id) range.
